@@ -153,6 +153,10 @@ class ServerWorld:
 
             def update(s, dt):
                 world.baton.srv_yield()
+                if getattr(world, "broadcast", False):
+                    # a game server: the world state goes to every connected client on every tick
+                    for c in list(world.ctxt.connections.values()):
+                        c.send(b"\x00\x00\x00\x00STATE-of-the-world-" + bytes(range(40)))
                 s._maybe("update")
         self.handler = Hn()
         self.ctxt = X.ServerContext(self.handler)
